@@ -444,7 +444,8 @@ class sumtensor:
         scalar_sum = 0.0
         for part in self.parts:
             result = part.ttv(vector, dims, exclude_dims)
-            if isinstance(result, float):
+            if isinstance(result, (float, int, np.number)):
+                # (an integer-valued part and integer vectors give an int)
                 scalar_sum += result
             else:
                 new_parts.append(result)
